@@ -403,12 +403,25 @@ func (SyllableChordConverter) newScaleNote(v *ast.ChordDegree) (*op.ScaleNote, e
 	}
 	accidental := op.Natural
 	if x := v.Accidental; x != nil {
-		accidental = op.NewAccidental(x.Value())
+		accidental = op.NewAccidental(accidentalText(x.Value()))
 	}
 	return &op.ScaleNote{
 		Name:       name,
 		Accidental: accidental,
 	}, nil
+}
+
+// accidentalText returns the ASCII spelling of an accidental token;
+// the lexer accepts the Unicode signs as well.
+func accidentalText(v string) string {
+	switch v {
+	case "♯":
+		return "#"
+	case "♭":
+		return "b"
+	default:
+		return v
+	}
 }
 
 // DegreeChordConverter converts AST contains only degrees.
@@ -441,7 +454,7 @@ func (c DegreeChordConverter) Convert(v *ast.Chord) (*input.Chord, error) {
 func (DegreeChordConverter) convertDegree(v *ast.ChordDegree) (note.Degree, error) {
 	s := v.Degree.Value()
 	if x := v.Accidental; x != nil {
-		s += x.Value()
+		s += accidentalText(x.Value())
 	}
 	d, err := note.ParseDegree(s)
 	if err != nil {
